@@ -254,6 +254,11 @@ def applyBranch (pre : Nat) (reset : Bool) (seg : List Frame) (r : State × Ckpt
   | .nil => ({ st with segs := st.segs ++ [seg] }, ⟨r.2, reset, .none, some seg⟩)
   | .busy => (st, ⟨r.2, reset, .busy, none⟩)     -- the store's deferred Cancel removes the file
 
+/-- where the attempt's `WALReset` is set in the source: ONE place, the result literal built
+before the outcome branches — `captureFinish` hands the same `reset` to every branch, the busy
+one included (the watch's `Check` is one-shot: an attempt that drops the flag loses it for good) -/
+def resetSites : List String := ["literal:walReset:before-branches"]
+
 /-- the bookkeeping after the checkpoint pragma returned `r`: the first branch whose condition
 holds; none holding is the invariant error. `pre` is the salt read before the checkpoint, `seg`
 the compacted WAL already written to the writer -/
